@@ -68,6 +68,16 @@ def ingredients(rng, kbpk):
         h2 = make_header(rng, ver, rand_blocks(rng, 1))
         ops[f"unwrap-other-key-{ver}"] = ("unwrap", tr31.wrap(k2, h2, rb(rng, 16)))
     ops["str"] = ("str", None)
+    # the mapping methods optional blocks inherit (update, setdefault, pop, clear): the same validation and state as item assignment
+    ops["update-ok"] = ("update", [(rs(rng, 2), rs(rng, 3)), ("KS", rs(rng, 5))])
+    ops["update-bad-data"] = ("update", [(rs(rng, 2), rs(rng, 2)), (rs(rng, 2), "a\x07b")])
+    ops["update-bad-id"] = ("update", [("K", "ABCDEFG")])
+    ops["update-unicode"] = ("update", [("T1", "caf\u00e9")])
+    ops["setdefault-new"] = ("setdefault", (rs(rng, 2), rs(rng, 4)))
+    ops["setdefault-bad"] = ("setdefault", ("Zz", "x\ny"))
+    ops["setdefault-KS"] = ("setdefault", ("KS", rs(rng, 4)))
+    ops["pop-KS"] = ("pop", "KS")
+    ops["clear"] = ("clear", None)
     return ops
 
 
@@ -87,6 +97,14 @@ def apply(se, op):
         return se.wrap(*payload)
     if kind == "setkbpk":
         return se.setkbpk(payload)
+    if kind == "update":
+        return se.update(payload)
+    if kind == "setdefault":
+        return se.setdefault(*payload)
+    if kind == "pop":
+        return se.pop(payload)
+    if kind == "clear":
+        return se.clear()
     return se.str()
 
 
